@@ -154,6 +154,9 @@ func c08Text(ctx *core.Ctx, t string) {
 		}
 	}
 	ctx.State(fmt.Sprintf("accepted=%v", accepted))
+	if ctx.WantSample() && len(t) > 60 && strings.Contains(t, "define") {
+		ctx.Sample(map[string]any{"kind": "lexeme string through the DSL and module entry points", "text": t, "accepted": accepted})
+	}
 	if accepted {
 		ctx.Nontrivial(t)
 		// the accepted model must survive the rest of the pipeline
@@ -376,6 +379,9 @@ func c08Faults(ctx *core.Ctx) {
 			if c08Model(ctx, m, name, raw) {
 				ctx.Nontrivial(name)
 				ctx.Flag("c08:fault-enumeration")
+				if ctx.WantSample() && len(idx) == 2 {
+					ctx.Sample(map[string]any{"kind": "protobuf fault pair through printer and graph builders", "mutation": name})
+				}
 			}
 		}
 		for i := 0; i < n; i++ {
@@ -483,6 +489,9 @@ func c08Pump(ctx *core.Ctx) {
 				continue
 			}
 			ctx.State(fmt.Sprintf("exp~%.0f", math.Round(exp*2)/2))
+			if ctx.WantSample() && exp > 0.8 {
+				ctx.Sample(map[string]any{"kind": "pumping", "fragment": fr, "context": ci, "n": n1, "cold_steps_n": s1 + base[ci], "cold_steps_2n": s2 + base[ci], "growth_exponent": math.Round(exp*100) / 100})
+			}
 		}
 	}
 	// scaled model families through printer and graph builders
